@@ -19,6 +19,8 @@ for _role, _names in {
     "MIN_DEPTH": ["min_depth", "min_variant_depth"], "SKIP_SOMATIC": ["skip_somatic"], "ZYGOSITY_FREQ": ["zygosity_freq"],
     "SAMPLE_ID": ["sample_id"], "NORMAL_ID": ["normal_id"], "AVG_SIZE": ["avg_size", "avg_bin_size"], "MIN_SIZE": ["min_size", "min_bin_size"],
     "MIN_GAP": ["min_gap_size"], "SKIP_NONCANONICAL": ["skip_noncanonical"],
+    "SEXES": ["sexes"], "IS_CHR_X": ["is_chr_x"], "IS_CHR_Y": ["is_chr_y"], "REF_FLAT": ["ref_flat_logr"], "REF_COLUMNS": ["ref_columns"],
+    "REF_EDGE_BIAS": ["ref_edge_bias"],
 }.items():
     for _n in _names:
         ROLE[_n] = _role
